@@ -70,6 +70,7 @@ type Op struct {
 	Node   int        `json:"node"`
 	ID     int        `json:"id,omitempty"`     // index into IDs (tunnel ops) or NodeIDs (address ops)
 	State  *StateSpec `json:"state,omitempty"`  // register
+	Fault  bool       `json:"fault,omitempty"`  // register: the Redis tier of the registering node refuses this one write (Redis-backed stores only)
 	Mutate string     `json:"mutate,omitempty"` // register: "", "fields", "tunnelid": caller mutates its struct afterwards
 	Ms     int        `json:"ms,omitempty"`     // sleep
 	FF     bool       `json:"ff,omitempty"`     // sleep: also advance the Redis server's clock (false = store-side expiry lags)
@@ -242,6 +243,7 @@ func genCase(t *rapid.T) Case {
 			op.ID = pickID()
 			op.State = genState(t, op.Node)
 			op.Mutate = rapid.SampledFrom([]string{"", "", "", "fields", "tunnelid"}).Draw(t, "mutate")
+			op.Fault = rapid.IntRange(0, 7).Draw(t, "fault") == 0
 			known = append(known, op.ID)
 			if c.TTLms[op.Node] == shortTTLms {
 				lapsing[op.ID] = true
@@ -300,6 +302,45 @@ type noCloseRedis struct{ *redisstore.Storage }
 
 func (noCloseRedis) Close() error { return nil }
 
+// faultyRedis is one node's Redis storage whose next write of a routing record can be refused once
+// (a Redis hiccup that hits exactly one node's registration).
+type faultyRedis struct {
+	*redisstore.Storage
+	arm *faultArm
+}
+
+type faultArm struct {
+	mu    sync.Mutex
+	armed bool
+	hits  int
+}
+
+func (a *faultArm) set() { a.mu.Lock(); a.armed = true; a.mu.Unlock() }
+
+func (a *faultArm) take() int {
+	a.mu.Lock()
+	defer a.mu.Unlock()
+	n := a.hits
+	a.hits, a.armed = 0, false
+	return n
+}
+
+func (f faultyRedis) Close() error { return nil }
+
+func (f faultyRedis) Set(key string, value any, ttl time.Duration) error {
+	f.arm.mu.Lock()
+	hit := f.arm.armed && strings.HasPrefix(key, "tunnox:tunnel_waiting:")
+	if hit {
+		f.arm.armed = false
+		f.arm.hits++
+	}
+	f.arm.mu.Unlock()
+	if hit {
+		return fmt.Errorf("injected: redis unavailable")
+	}
+	return f.Storage.Set(key, value, ttl)
+}
+
 type redisEnv struct {
 	mr      *miniredis.Miniredis
 	clients []*redisstore.Storage
@@ -349,6 +390,7 @@ type entry struct {
 }
 
 type backend struct {
+	arms   []*faultArm // per node; Redis-backed stores only
 	name   string
 	tables []*tunnel.RoutingTable
 	mr     *miniredis.Miniredis
@@ -372,14 +414,24 @@ func buildBackends(ttls []int) []*backend {
 	hm := hybrid.New(ctx, memory.New(ctx), nil, hybrid.DefaultConfig())
 	redisA.mr.FlushAll()
 	redisB.mr.FlushAll()
-	return []*backend{
+	newArms := func() []*faultArm {
+		a := make([]*faultArm, maxNodes)
+		for i := range a {
+			a[i] = &faultArm{}
+		}
+		return a
+	}
+	armsA, armsB := newArms(), newArms()
+	out := []*backend{
 		mk("memory", nil, func(int) storage.Storage { return mem }),
 		mk("hybrid-memory", nil, func(int) storage.Storage { return hm }),
-		mk("redis", redisA.mr, func(i int) storage.Storage { return redisA.clients[i] }),
+		mk("redis", redisA.mr, func(i int) storage.Storage { return faultyRedis{redisA.clients[i], armsA[i]} }),
 		mk("hybrid-redis", redisB.mr, func(i int) storage.Storage {
-			return hybrid.NewWithSharedCache(ctx, memory.New(ctx), noCloseRedis{redisB.clients[i]}, nil, hybrid.DefaultConfig())
+			return hybrid.NewWithSharedCache(ctx, memory.New(ctx), faultyRedis{redisB.clients[i], armsB[i]}, nil, hybrid.DefaultConfig())
 		}),
 	}
+	out[2].arms, out[3].arms = armsA, armsB
+	return out
 }
 
 // ---------------------------------------------------------------------------
@@ -476,6 +528,7 @@ func errShape(err error) string {
 }
 
 type stats struct {
+	faulted                                                                       int
 	reReg, expiryLookup, removeLookup, lagging, crossNode, found, gone, ambiguous int
 	aliased, copied                                                               map[string]bool
 }
@@ -575,9 +628,19 @@ func runCase(c Case) (*failure, *stats) {
 					st.reReg++
 				}
 				ws := op.State.build(id)
+				if op.Fault && b.arms != nil {
+					b.arms[op.Node].set()
+				}
 				tb := time.Now()
 				err := b.tables[op.Node].RegisterWaitingTunnel(ctx, ws)
 				ta := time.Now()
+				if b.arms != nil && b.arms[op.Node].take() > 0 {
+					st.faulted++
+					if err != nil {
+						continue // the registration reported its failure: nothing was registered, whatever the id held before stays
+					}
+					// reported success although the store refused the write: judged like any other registration below
+				}
 				if err != nil {
 					return &failure{fmt.Sprintf("C09/register-error/%s/%s", b.name, errShape(err)), fmt.Sprintf("op %d register(%s): %v", oi, short(id), err)}, st
 				}
@@ -788,6 +851,9 @@ func check(t vkit.TB, c Case) {
 	nt := st.found+st.gone > 0 && (st.reReg > 0 || st.expiryLookup > 0 || special)
 	vkit.Case(class, nt, caseSig(c))
 	vkit.Sample(class, summarize(c))
+	if st.faulted > 0 {
+		vkit.Class("feat:registration-write-refused-by-redis")
+	}
 	if st.crossNode > 0 {
 		vkit.Class("feat:lookup-from-other-node-resolved")
 	}
